@@ -227,6 +227,29 @@ func (node *Node) ProcessBlock(ctx context.Context, block wire.Block) error {
 		return ErrBlockNotAdded
 	}
 
+	// A body with a repeated tx can hash to the same merkle root as the block the header commits
+	// to (duplicated tail of an odd tree level), so the root check alone does not reject it.
+	seen := make(map[bitcoin.Hash32]struct{})
+	for {
+		tx, err := block.GetNextTx()
+		if err != nil {
+			block.ResetTxs()
+			return errors.Wrap(err, "get next tx")
+		}
+		if tx == nil {
+			break
+		}
+
+		txid := *tx.TxHash()
+		if _, exists := seen[txid]; exists {
+			block.ResetTxs()
+			logger.Warn(ctx, "Duplicate tx %s in block %s", txid, hash)
+			return ErrBlockNotAdded
+		}
+		seen[txid] = struct{}{}
+	}
+	block.ResetTxs()
+
 	// Add to repo
 	if err := node.blocks.Add(ctx, &header); err != nil {
 		return errors.Wrap(err, "add block")
